@@ -27,6 +27,7 @@ def run(repo, report, tier):
     report.guard("C03.R2", "mask/lowercase/zero-cap", r2_strings, repo, report)
     report.guard("C03.R4", "match interval algebra", r4_intervals, repo, report)
     report.guard("C03.R5", "action dispatch", r5_actions, repo, report)
+    report.guard("C03.R5", "match protocol of the action helpers", r5_match_protocol, repo, report)
     report.guard("C03.R6", "modifier returns", r6_returns, repo, report)
     report.guard("C03.R6", "empty reads", r6_empty_reads, repo, report)
     report.trust("dnaio.SequenceRecord.__getitem__(slice) slices sequence and qualities with the same slice and keeps the name (dnaio 1.2.4)")
@@ -609,3 +610,54 @@ def r6_empty_reads(repo, report):
                           why=f"{bad[0]} raises IndexError on an empty read (a read may be empty in the input or become empty through an earlier modifier); the run aborts instead of passing the read on")
     report.ob("C03.R6", "modifiers accept the empty read", True, facts={"modifier_call_methods_checked": n}, expected="no unguarded constant index into the read's strings", loc="src/cutadapt/modifiers.py", cases=n)
     report.floor("C03.R6", "modifier __call__ methods checked for empty reads", n, 15)
+
+
+def r5_match_protocol(repo, report):
+    """The action helpers of AdapterCutter get the list of matches of a read; an element may be of ANY match class
+    (single 5'/3' matches and linked matches).  Every attribute or method a helper uses on a match must exist on every
+    concrete match class, otherwise that action crashes for that kind of adapter."""
+    helpers = ("trim_but_retain_adapter", "masked_read", "lowercased_read", "cropped_read")
+    concrete = [c for c in repo.subclasses("Match") if not any(isinstance(d, ast.Name) and d.id == "abstractmethod" for m_ in c.methods.values() for d in m_.decorator_list) and c.name != "SingleMatch"]
+
+    def provides(cls, attr):
+        for k in repo.mro(cls.name):
+            if attr in k.methods or attr in k.class_attrs:
+                return True
+            init = k.methods.get("__init__")
+            if init is not None and any(isinstance(n, (ast.Assign, ast.AnnAssign)) and any(chain(t) == f"self.{attr}" for t in (n.targets if isinstance(n, ast.Assign) else [n.target])) for n in ast.walk(init)):
+                return True
+        return False
+
+    # Documented as unsupported (doc/guide.rst, "Linked adapters do not work in combination with --info-file,
+    # --action=mask and --action=crop"): the run stops with an exception and nothing is written, so no clause of C03
+    # (which speaks about what IS written) is broken.  One named pair, nothing wider.
+    unsupported = {("cropped_read", "LinkedMatch"): "documented: linked adapters do not work with --action=crop; the run aborts, no record is written"}
+    n = 0
+    for h in helpers:
+        c, fn = repo.method("AdapterCutter", h)
+        if fn is None:
+            continue
+        ps = params(fn)
+        mlist = ps[-1]
+        # names bound to an element of the list
+        elems = {n_.targets[0].id for n_ in ast.walk(fn) if isinstance(n_, ast.Assign) and isinstance(n_.targets[0], ast.Name) and isinstance(n_.value, ast.Subscript) and chain(n_.value.value) == mlist}
+        used = set()
+        for x in ast.walk(fn):
+            if isinstance(x, ast.Attribute):
+                base = x.value
+                if (isinstance(base, ast.Name) and base.id in elems) or (isinstance(base, ast.Subscript) and chain(base.value) == mlist):
+                    used.add(x.attr)
+        # helpers that go through remainder(matches) use remainder_interval of each element
+        if any(isinstance(x, ast.Call) and chain(x.func) == "remainder" for x in ast.walk(fn)):
+            used.add("remainder_interval")
+        for cls in concrete:
+            n += 1
+            missing = sorted(a for a in used if not provides(cls, a))
+            if missing and (h, cls.name) in unsupported:
+                report.ob("C03.R5", f"AdapterCutter.{h} works for {cls.name}", True, facts={"uses": sorted(used), "missing_on_class": missing, "exception": unsupported[(h, cls.name)]},
+                          expected="documented unsupported combination", loc=repo.loc(fn))
+                continue
+            report.ob("C03.R5", f"AdapterCutter.{h} works for {cls.name}", not missing, facts={"uses": sorted(used), "missing_on_class": missing},
+                      expected="every attribute the helper reads is provided by every concrete match class", loc=repo.loc(fn), fact_key="match-protocol" if missing else None,
+                      why=(f"{h} reads .{missing[0]} of the match, which {cls.name} does not have: the action crashes with AttributeError for that kind of adapter" if missing else ""))
+    report.floor("C03.R5", "action helper x match class", n, 9)
